@@ -16655,7 +16655,9 @@ func (msg *BGPUpdate) DecodeFromBytes(data []byte, options ...*MarshallingOption
 			return strongestError
 		}
 		data = data[p.Len(options...):]
-		if e == nil || e.(*MessageError).ErrorHandling != ERROR_HANDLING_ATTRIBUTE_DISCARD {
+		// an attribute that failed to decode is only partly filled in: it
+		// is reported through the error and never part of the message
+		if e == nil {
 			msg.PathAttributes = append(msg.PathAttributes, p)
 		}
 	}
